@@ -177,6 +177,11 @@ func (c *Chunker) Next() (uint64, []byte, error) {
 	// Position the pointer at the minimum size
 	var pos = int(c.min)
 
+	// With min == max there is nothing to look for, the chunk ends at max
+	if pos >= m {
+		return c.split(m, nil)
+	}
+
 	var out, in byte
 	for {
 		// Add a byte to the hash
